@@ -264,6 +264,10 @@ pub struct Cfg {
     pub events: bool,
     /// Clients whose app is built with one extra replication rule (a different protocol).
     pub mismatch: Vec<usize>,
+    /// The client's connection status and its incoming messages are applied by a system in
+    /// `ClientSet::ReceivePackets`, the way a messaging backend does it (the connection and the
+    /// first messages arrive inside the same client frame), instead of between frames.
+    pub backend_style: bool,
     /// Register a command marker that asks for history (`need_history`) and custom write
     /// functions for `A`; every replicated entity on a client carries the marker.
     pub hist: bool,
@@ -289,7 +293,28 @@ impl Default for Cfg {
             events: false,
             mismatch: vec![],
             hist: false,
+            backend_style: false,
         }
+    }
+}
+
+/// Connections the (simulated) transport closes after `ServerSet::Send` of the current frame.
+#[derive(Resource, Default)]
+pub struct DropAfterSend(pub Vec<Entity>);
+
+/// What the transport has for the client app's next frame (see `Cfg::backend_style`).
+#[derive(Resource, Default)]
+pub struct Inbox {
+    pub connect: bool,
+    pub msgs: Vec<(usize, Bytes)>,
+}
+
+fn backend_receive(mut inbox: ResMut<Inbox>, mut client: ResMut<RepliconClient>) {
+    if std::mem::take(&mut inbox.connect) {
+        client.set_status(RepliconClientStatus::Connected);
+    }
+    for (ch, bytes) in inbox.msgs.drain(..) {
+        client.insert_received(ch, bytes);
     }
 }
 
@@ -417,6 +442,21 @@ pub fn build_app_with(cfg: &Cfg, extra_rule: bool) -> App {
     }
     if extra_rule {
         app.replicate::<Extra>();
+    }
+    // a transport that closes a connection between the library's send systems and its own flush
+    app.init_resource::<DropAfterSend>().add_systems(
+        PostUpdate,
+        (|mut list: ResMut<DropAfterSend>, mut commands: Commands| {
+            for e in list.0.drain(..) {
+                commands.entity(e).despawn();
+            }
+        })
+        .after(ServerSet::Send)
+        .before(ServerSet::SendPackets),
+    );
+    if cfg.backend_style {
+        app.init_resource::<Inbox>()
+            .add_systems(PreUpdate, backend_receive.in_set(ClientSet::ReceivePackets));
     }
     if cfg.hist {
         use bevy_replicon::shared::replication::{command_markers::MarkerConfig, replication_registry::command_fns};
@@ -730,6 +770,8 @@ pub struct Sim {
     /// The reset at a stop touches `ServerTick`: the first running frame of the next session
     /// sends replication even if the tick number is not incremented.
     pub send_forced_by_restart: bool,
+    /// Client whose connection is closed by the transport after this frame's send systems.
+    pub pending_drop: Option<usize>,
     pub acks: AckModel,
     /// (etag, ctag) -> (version, first tick at which that version was observable) of the last edit.
     pub last_edit: BTreeMap<(u8, u8), (u8, Option<u32>)>,
@@ -774,6 +816,7 @@ impl Sim {
             orphan_messages: 0,
             server_stopped_pending_reset: false,
             send_forced_by_restart: false,
+            pending_drop: None,
             acks: AckModel::default(),
             last_edit: BTreeMap::new(),
             once_sent: BTreeMap::new(),
@@ -832,10 +875,14 @@ impl Sim {
         let cl = &mut self.clients[c];
         cl.conn = Some(conn);
         cl.session += 1;
-        cl.app
-            .world_mut()
-            .resource_mut::<RepliconClient>()
-            .set_status(RepliconClientStatus::Connected);
+        if self.cfg.backend_style {
+            cl.app.world_mut().resource_mut::<Inbox>().connect = true;
+        } else {
+            cl.app
+                .world_mut()
+                .resource_mut::<RepliconClient>()
+                .set_status(RepliconClientStatus::Connected);
+        }
     }
 
     /// The transport reports `Connecting` for a few client frames before `Connected`.
@@ -851,6 +898,15 @@ impl Sim {
         self.connect(c);
     }
 
+    /// The transport closes `c`'s connection inside the server's next frame, after the library
+    /// queued that frame's messages and before the transport would flush them.
+    pub fn disconnect_after_send(&mut self, c: usize) {
+        if let Some(conn) = self.clients[c].conn {
+            self.server.world_mut().resource_mut::<DropAfterSend>().0.push(conn);
+            self.pending_drop = Some(c);
+        }
+    }
+
     /// Transport-level disconnect seen by both sides; in-flight traffic is discarded.
     pub fn disconnect(&mut self, c: usize) {
         if let Some(conn) = self.clients[c].conn.take() {
@@ -863,6 +919,10 @@ impl Sim {
             .world_mut()
             .resource_mut::<RepliconClient>()
             .set_status(RepliconClientStatus::Disconnected);
+        if let Some(mut inbox) = cl.app.world_mut().get_resource_mut::<Inbox>() {
+            inbox.connect = false;
+            inbox.msgs.clear();
+        }
         for q in cl.s2c.iter_mut().chain(cl.c2s.iter_mut()) {
             q.clear();
         }
@@ -1356,6 +1416,11 @@ impl Sim {
                 }
             }
         }
+        // a connection closed after the send systems: whatever is still queued for it is orphaned
+        let dropped = self.pending_drop.take();
+        if let Some(c) = dropped {
+            self.clients[c].conn = None;
+        }
         let sent: Vec<(Entity, usize, Bytes)> = self
             .server
             .world_mut()
@@ -1398,6 +1463,10 @@ impl Sim {
                 tick: now,
             });
         }
+        if let Some(c) = dropped {
+            // the client side notices as well
+            self.disconnect(c);
+        }
         Ok(())
     }
 
@@ -1414,6 +1483,13 @@ impl Sim {
                     self.acks.delivered_idx.insert((c, info.index));
                 }
             }
+        }
+        if self.cfg.backend_style {
+            let mut inbox = self.clients[c].app.world_mut().resource_mut::<Inbox>();
+            for m in msgs {
+                inbox.msgs.push((ch, m.bytes));
+            }
+            return n;
         }
         let mut client = self.clients[c]
             .app
